@@ -135,6 +135,14 @@ class Engine:
         return self.frames[-1]
 
     def oblige(self, st, goal, group, cls, label, line=0, props=()):
+        if z3.is_and(goal) and cls in ('internal', 'post') and \
+                goal.num_args() > 1:
+            # one obligation per conjunct: smaller queries, sharper reports
+            ob = None
+            for k, g in enumerate(goal.children()):
+                ob = self.oblige(st, g, group, cls, '%s [conjunct %d]' % (
+                    label, k), line, props)
+            return ob
         if z3.is_true(goal):
             # still count: discharged trivially by the engine
             pass
